@@ -100,7 +100,8 @@ def r1_r2_startup(ctx):
         if not (nm.endswith('Iterator::fold') or nm.endswith('Iterator::max')):
             continue
         args = [f.expr_operand(a_, x.b, 'T') for a_ in x.args]
-        recv_maps_stages = any(y[0] == 'call' and y[1].endswith('Iterator::map') and len(y[2]) > 1 and _closure_calls(y[2][1], is_stages) for y in walk(args[0]))
+        recv_maps_stages = any(y[0] == 'call' and y[1].endswith('Iterator::map') and len(y[2]) > 1 and
+                               (_closure_calls(y[2][1], is_stages) or (peel(y[2][1])[0] == 'fnitem' and peel(y[2][1])[1] == EV + 'num_sim_start_stages')) for y in walk(args[0]))
         if nm.endswith('Iterator::fold') and len(args) == 3:
             comb = peel(args[2])
             by_closure = _closure_calls(comb, is_stages) and _closure_calls(comb, is_max)
